@@ -787,10 +787,13 @@ func guarded(f func() (*bt.Tx, int64, error)) (r libResult) {
 func checkBytes(ctx *pbt.Ctx, c Bytes) error {
 	data := []byte(c.Data)
 	if mc := maxClaim(data); mc >= 1<<31 {
-		// a decoder that sizes buffers from such a field could exhaust memory; how
-		// decoders cope with that is C09's question, and both sides reject the input
-		ctx.Discard("a length/count field announces 2^31 or more (left to C09)")
-		return nil
+		// (round 5) such cases are no longer discarded: a decoder that ACCEPTS what the
+		// reference rejects violates C01 whatever number was announced; a decoder that
+		// panics on it is merely "not accepting" here (totality is C09)
+		ctx.Label("announces>=2^31")
+		if mc >= 1<<63 {
+			ctx.Label("announces>=2^63")
+		}
 	}
 	ctx.Label("op=" + c.Op)
 	ctx.Key(data)
@@ -907,7 +910,7 @@ func genBytes(t *rapid.T) Bytes {
 		m.LockTime = 0
 	}
 	ext := rapid.Bool().Draw(t, "ext")
-	op := rapid.SampledFrom([]string{"canonical", "nonminimal", "nonminimal", "nonminimal", "nonminimal2", "bitflip", "bitflip", "byteset", "truncate", "trailing", "nonminimal+trailing", "random"}).Draw(t, "op")
+	op := rapid.SampledFrom([]string{"canonical", "nonminimal", "nonminimal", "nonminimal", "nonminimal2", "bitflip", "bitflip", "byteset", "truncate", "trailing", "nonminimal+trailing", "random", "claim", "claim", "claim+trailing"}).Draw(t, "op")
 	widen := func(w ref.Widths) {
 		sites := ref.VarintSites(m, ext)
 		w[rapid.IntRange(0, sites-1).Draw(t, "site")] = rapid.SampledFrom([]int{3, 5, 9}).Draw(t, "width")
@@ -942,6 +945,20 @@ func genBytes(t *rapid.T) Bytes {
 		w := ref.Widths{}
 		widen(w)
 		data = append(ref.EncodeWidths(m, ext, w), gen.Bytes(t, rapid.IntRange(1, 12).Draw(t, "ntrail"), "trailing")...)
+	case "claim", "claim+trailing":
+		// one varint site (2 in 3: a count site) announces a huge value; the body is kept,
+		// cut behind the site, or followed by more bytes
+		_, counts := encodeClaims(m, ext, nil)
+		s := rapid.SampledFrom(counts).Draw(t, "count_site")
+		if rapid.IntRange(0, 2).Draw(t, "any_site") == 0 {
+			s = rapid.IntRange(0, ref.VarintSites(m, ext)-1).Draw(t, "site")
+		}
+		data, _ = encodeClaims(m, ext, map[int]uint64{s: genClaim(t)})
+		if op == "claim+trailing" {
+			data = append(data, gen.BytesUpTo(t, 90, "trailing")...)
+		} else if rapid.IntRange(0, 3).Draw(t, "cut?") == 0 {
+			data = data[:rapid.IntRange(5, len(data)).Draw(t, "cut")]
+		}
 	case "random":
 		// a plausible header followed by random bytes
 		data = append(data, gen.Bytes(t, 4, "version")...)
@@ -959,7 +976,7 @@ func TestBytes(t *testing.T) {
 		Name: "bytes", Quick: 36000, Thorough: 1000000,
 		Gen:      genBytes,
 		Check:    checkBytes,
-		EnumDesc: "for 4 fixed transactions x {standard, extended}: every varint site widened to each of the 3 non-minimal classes, every truncation point, and every single-bit flip of the encoding",
+		EnumDesc: "for 4 fixed transactions x {standard, extended}: every varint site widened to each of the 3 non-minimal classes, every varint site announcing each of 18 huge values (2^31 .. 2^64-1 incl. bit 63 set and products with 9 / 41 that wrap around 2^64) with and without 64 bytes behind the encoding, every truncation point, and every single-bit flip of the encoding",
 		Enum: func(tier string, yield func(Bytes)) {
 			seeds := []Shape{{NIn: 0, NOut: 0, Len: 0, Salt: 1}, {NIn: 1, NOut: 1, Len: 2, Salt: 2}, {NIn: 2, NOut: 2, Len: 0, Salt: 3}, {NIn: 0, NOut: 2, Len: 5, Salt: 4}}
 			for _, s := range seeds {
@@ -970,6 +987,13 @@ func TestBytes(t *testing.T) {
 					for site := 0; site < ref.VarintSites(m, ext); site++ {
 						for _, w := range []int{3, 5, 9} {
 							yield(Bytes{Op: "nonminimal", Data: ref.EncodeWidths(m, ext, ref.Widths{site: w})})
+						}
+					}
+					for site := 0; site < ref.VarintSites(m, ext); site++ {
+						for _, cl := range fixedClaims {
+							d, _ := encodeClaims(m, ext, map[int]uint64{site: cl})
+							yield(Bytes{Op: "claim", Data: d})
+							yield(Bytes{Op: "claim+trailing", Data: append(d, make([]byte, 64)...)})
 						}
 					}
 					for k := 0; k < len(base); k++ {
